@@ -25,7 +25,10 @@ def build_registry(modules=None):
             reg.load_spec_module(os.path.join(specdir, fn))
     if VERIF not in sys.path:
         sys.path.insert(0, VERIF)
-    for m in (modules or CONTRACT_MODULES):
+    mods_ = list(modules or CONTRACT_MODULES)
+    if 'contracts.k2_quote' not in mods_:
+        mods_.append('contracts.k2_quote')     # registers value-kind primitives used by schemas
+    for m in mods_:
         mod = importlib.import_module(m)
         for c in mod.CONTRACTS:
             reg.add(c)
